@@ -61,7 +61,7 @@ def make_case(name, nprocs, group):
         lc = sc.add("*", "close", f=k)
         lines.append({"tag": tag, "open": lo, "sweep": ls, "read": lr, "close": lc, "size": len(b)})
     lm = sc.add("*", "inq", what="malloc")
-    sc.add("*", "balance")
+    sc.add("*", "balance", final=1)
     c = Case(name, nprocs, sc.lines, meta={"files": lines, "malloc": lm, "maxsize": max(len(b) for _, b in group)}, timeout=60)
     c.files = files
     return c
@@ -71,7 +71,7 @@ class C19(Check):
     id = "C19"
     rule = ("seed files in CDF-1/2/5 from the specification encoder; every truncation length of the header region, every 4-byte (and, in "
             "CDF-5, 8-byte) header word replaced by each value of a dictionary of extremes, random multi-field corruptions and bit flips; "
-            "each input is opened on 1-2 ranks on the ASan+UBSan build, then fully inquired and (bounded) read if it opens.  Oracle: no "
+            "plus valid multi-chunk headers with an 8-byte field straddling the 256 KiB read-chunk boundary; each input is opened on 1-2 ranks on the ASan+UBSan build, then fully inquired and (bounded) read if it opens.  Oracle: no "
             "sanitizer report, no abnormal termination, no hang; open returns a netCDF error or the inquiries are self-consistent; header "
             "fetches (MPI-IO reads during open, counted by the shim) <= size/chunk + 3 and peak library heap <= 64 x file size + 8 MiB "
             "(logical resource bounds, no wall-clock).  The sanitizer side of the property is additionally monitored in every workload of "
@@ -93,6 +93,16 @@ class C19(Check):
                 grp = ms[k:k + PER_CASE]
                 yield make_case("c19_%02d_%05d" % (si, ci), 1 if (ci % 4) else 2, [("s%d:%s" % (si, t), x) for t, x in grp])
                 ci += 1
+
+        # valid files whose header is larger than one read chunk, with an 8-byte field starting 4 bytes before the chunk
+        # boundary (see C04): the parser must refill its buffer there without reading outside it
+        nbig = 9 if tier == "quick" else 90
+        for k in range(0, nbig, 3):
+            grp = []
+            for j in range(3):
+                s, data, b = gen_file(rng, big=(k + j) % 70)
+                grp.append(("big%d:valid%d" % (k + j, s.version), b))
+            yield make_case("c19_big_%05d" % k, 1 if (k // 3) % 2 else 2, grp)
 
     def features(self, res):
         return res.case.name
